@@ -517,8 +517,8 @@ func (g *Gen) appendOp(st *State, v ssa.Value, c *ssa.CallCommon, pos token.Pos)
 		n := g.sc.fresh("ma_"+tag, g.sc.tagSort[tag])
 		g.sc.emit("(assert (forall ((r Ref)) (! (=> (not (= (rb r) (rb %s))) (= (select %s r) (select %s r))) :pattern ((select %s r)))))", arr, n, cur, n)
 		dst := path(fmt.Sprintf("(idx %s i)", arr))
-		src1 := path(fmt.Sprintf("(idx (sarr %s) (+ (soff %s) i))", s, s))
-		src2 := path(fmt.Sprintf("(idx (sarr %s) (+ (soff %s) (- i (slen %s))))", more, more, s))
+		src1 := path(fmt.Sprintf("(sidx %s i)", s))
+		src2 := path(fmt.Sprintf("(sidx %s (- i (slen %s)))", more, s))
 		g.sc.emit("(assert (forall ((i Int)) (! (=> (and (<= 0 i) (< i %s)) (= (select %s %s) (ite (< i (slen %s)) (select %s %s) (select %s %s)))) :pattern ((select %s %s)))))",
 			newLen, n, dst, s, cur, src1, cur, src2, n, dst)
 		st.mem[tag] = n
@@ -596,8 +596,8 @@ func (g *Gen) copyOp(st *State, v ssa.Value, c *ssa.CallCommon) {
 			return
 		}
 		src := g.term(c.Args[1])
-		d := path(fmt.Sprintf("(idx (sarr %s) (+ (soff %s) i))", dst, dst))
-		s := path(fmt.Sprintf("(idx (sarr %s) (+ (soff %s) i))", src, src))
+		d := path(fmt.Sprintf("(sidx %s i)", dst))
+		s := path(fmt.Sprintf("(sidx %s i)", src))
 		g.sc.emit("(assert (forall ((i Int)) (! (=> (and (<= 0 i) (< i %s)) (= (select %s %s) (select %s %s))) :pattern ((select %s %s)))))", n, nm, d, cur, s, nm, d)
 		// frame: cells outside the destination window are unchanged
 		g.sc.emit("(assert (forall ((r Ref)) (! (=> (not (= (rb r) (rb (sarr %s)))) (= (select %s r) (select %s r))) :pattern ((select %s r)))))", dst, nm, cur, nm)
